@@ -17,7 +17,7 @@ ASSUMPTIONS = [
     "is asserted on every case with T <= 4096)",
 ]
 REQUIRED_CLASSES = ["nontrivial", "odd_accel", "neg_accel", "clear_to_M", "r1_zero", "beyond_2^53",
-                    "T>2^20", "ambient_low_precision", "loop_validated"]
+                    "T>2^20", "ambient_low_precision", "loop_validated", "same_rates_other_duration_or_accumulator"]
 
 QUICK_SHARDS = 4
 
@@ -26,6 +26,15 @@ ebb_motion = sut.load("ebb_motion")
 
 
 def body(ctx, case):
+    """The main move, preceded (when case["before"] is set) by calls for the same rates with another duration and/or
+    start accumulator: every call is judged on its own, so nothing remembered from one call may leak into the next."""
+    for variation in case.get("before", []):
+        ctx.classes["same_rates_other_duration_or_accumulator"] += 1
+        one(ctx, dict(case, **variation), case)
+    one(ctx, case, case)
+
+
+def one(ctx, case, whole):
     rate, accel, T, accum, amb = (case["rate"], case["accel"], case["T"], case["accum"],
                                   case.get("ambient"))
     if not rates_valid(T, rate, accel, 0):
@@ -60,29 +69,47 @@ def body(ctx, case):
         got = call_sut(ebb_calc.move_dist_lt, rate, accel, T, accum)
         if tuple(got) != (exp_pos, exp_acc):
             ctx.fail("move_dist_lt(%d, %d, %d, %r) = %r, firmware recurrence gives %r"
-                     % (rate, accel, T, accum, got, (exp_pos, exp_acc)), case)
+                     % (rate, accel, T, accum, got, (exp_pos, exp_acc)), whole)
         if not all(type(v) is int for v in got):
-            ctx.fail("move_dist_lt returned non-integers %r" % (got,), case)
+            ctx.fail("move_dist_lt returned non-integers %r" % (got,), whole)
         set_ambient(amb)
         got_a = call_sut(ebb_motion.moveDistLMA, rate, accel, T, accum)
         if tuple(got_a) != (exp_pos, exp_acc):
             ctx.fail("moveDistLMA(%d, %d, %d, %r) = %r, expected %r"
-                     % (rate, accel, T, accum, got_a, (exp_pos, exp_acc)), case)
+                     % (rate, accel, T, accum, got_a, (exp_pos, exp_acc)), whole)
         set_ambient(amb)
         got_b = call_sut(ebb_motion.moveDistLM, rate, accel, T)
         exp_b = fw.lt_expected(rate, accel, T, 0)[0]
         if got_b != exp_b:
             ctx.fail("moveDistLM(%d, %d, %d) = %r, expected %r (accumulator 0)"
-                     % (rate, accel, T, got_b, exp_b), case)
+                     % (rate, accel, T, got_b, exp_b), whole)
     finally:
         mpmath.mp.prec = saved
 
 
 @st.composite
+def variations(draw, T):
+    """1..3 earlier calls with the same rates: any duration T' <= T is valid when T is; any accumulator is."""
+    out = []
+    for _ in range(draw(st.integers(1, 3))):
+        var = {}
+        how = draw(st.sampled_from(["T", "T", "accum", "both"]))
+        if how in ("T", "both"):
+            var["T"] = draw(st.one_of(st.integers(1, T), st.integers(max(1, T - 3), T), st.integers(1, min(T, 4))))
+        if how in ("accum", "both"):
+            var["accum"] = draw(accumulators())
+        out.append(var)
+    return out
+
+
+@st.composite
 def cases(draw):
     mv = draw(t3_moves(with_jerk=False))
-    return {"rate": mv["rate"], "accel": mv["accel"], "T": mv["T"],
+    case = {"rate": mv["rate"], "accel": mv["accel"], "T": mv["T"],
             "accum": draw(accumulators()), "ambient": draw(AMBIENT)}
+    if draw(st.integers(0, 3)) == 0:
+        case["before"] = draw(variations(case["T"]))
+    return case
 
 
 def small_grid():
